@@ -30,7 +30,7 @@ RULE = (
     "earlier in the same process; distinct = distinct (text digest, dialect, buggify config, history-prefix digest)."
 )
 TIERS = {
-    "quick": {"runs": 60, "budget_s": 40, "min_runs": 4, "run_timeout_s": 420},
+    "quick": {"runs": 80, "budget_s": 60, "min_runs": 4, "run_timeout_s": 420},
     "thorough": {"runs": 5000, "budget_s": 800, "min_runs": 40, "run_timeout_s": 900},
 }
 COMPONENTS_REAL = [
@@ -48,6 +48,7 @@ ASSUMPTIONS = [
 
 FIX = "/repo/test/fixtures/dialects"
 DIALECTS = ["ansi", "postgres", "bigquery", "snowflake", "tsql", "mysql", "sqlite", "duckdb", "sparksql", "oracle", "redshift", "clickhouse", "exasol", "hive", "athena", "trino", "db2", "teradata", "mariadb", "materialize", "soql", "databricks", "greenplum", "vertica", "starrocks", "doris", "impala", "flink"]
+COMMON = ["bigquery", "snowflake", "postgres", "tsql", "sparksql", "mysql", "ansi", "redshift", "duckdb"]
 JINJA = [
     "SELECT\n    {% for c in ['a', 'b', 'c'] %}\n    {{ c }},\n    {% endfor %}\n    z\nFROM tbl\n",
     "SELECT a\nFROM tbl\n{% if true %}\nWHERE a > 1\n{% else %}\nWHERE a < 1\n{% endif %}\n",
@@ -79,15 +80,27 @@ def mutate(rng: Rng, text: str) -> tuple[str, str]:
     toks = TOKEN.findall(text)
     if len(toks) < 4:
         return text, "none"
-    kind = rng.choice(["delete", "dup", "swap", "truncate", "bracket", "keyword", "quote", "replace", "replace", "replace_open"])
+    kind = rng.choice(["delete", "dup", "swap", "truncate", "bracket", "keyword", "quote", "replace", "replace", "replace_open", "squeeze", "squeeze"])
     i = rng.randrange(len(toks))
+    if kind == "squeeze":
+        # drop the whitespace between a bracket / quote and a word (`SUM(x)FROM t`, `'a'AS b`): still
+        # lexes into the same tokens, but keyword matchers that want preceding whitespace see none
+        cands = [j for j in range(1, len(toks) - 1) if toks[j].isspace() and "\n" not in toks[j]
+                 and ((toks[j - 1][-1] in ")]'\"" and (toks[j + 1][0].isalpha() or toks[j + 1][0] == "_"))
+                      or (toks[j + 1][0] in "(['\"" and (toks[j - 1][-1].isalnum() or toks[j - 1][-1] == "_")))]
+        if cands:
+            del toks[rng.choice(cands)]
+            return "".join(toks), kind
+        kind = "delete"
     if kind in ("replace", "replace_open"):
         # count-preserving: the sibling keeps the token count and every other token's position,
         # which is what parse-cache keys (raw, position, type, max_idx) are made of. An opening
         # bracket with no partner makes the parser *raise* part-way (an aborted parse).
         code = [j for j, t in enumerate(toks) if not t.isspace()]
         i = rng.choice(code)
-        new = "(" if kind == "replace_open" else rng.choice(["(", ")", ",", "x", "1", "SELECT", "FROM", "AS", "+", ";", "'s'"])
+        # (the vocabulary mixes lexer token classes: words, keywords, numbers - also ones that LOOK like
+        # identifiers to a regex, 1e5 / 2E3 -, quoted names, operators, brackets, parameters)
+        new = "(" if kind == "replace_open" else rng.choice(["(", ")", ",", "x", "1", "SELECT", "FROM", "AS", "+", ";", "'s'", "1e5", "2E3", '"Q n"', "x.y", "*", "@v", "$1", "?", "_z9", "NULL", "1.5"])
         toks[i] = new
         return "".join(toks), kind
     if kind == "delete":
@@ -111,6 +124,8 @@ def mutate(rng: Rng, text: str) -> tuple[str, str]:
 def gen_inputs(rng: Rng) -> tuple[list[dict], list[dict]]:
     avail = [d for d in DIALECTS if fixtures(d)]
     dialect = rng.choice(avail) if avail and rng.chance(0.8) else "ansi"
+    if avail and rng.chance(0.3):
+        dialect = rng.choice([d for d in COMMON if d in avail] or ["ansi"])
     inputs: list[dict] = []
     n = rng.randint(3, 5)
     for i in range(n):
@@ -175,8 +190,11 @@ def gen_inputs(rng: Rng) -> tuple[list[dict], list[dict]]:
     # fillers from other dialects (history)
     fillers = []
     others = [d for d in avail if d != dialect] or ["ansi"]
-    for i in range(rng.randint(1, 2)):
-        d2 = rng.choice(others)
+    for i in range(rng.randint(1, 3)):
+        # dialects share grammar objects through inheritance from ansi: the widely used ones
+        # (which override the most) are drawn more often as the "other" dialect of a history
+        common = [d for d in COMMON if d in others]
+        d2 = rng.choice(common) if common and rng.chance(0.5) else rng.choice(others)
         fx = fixtures(d2)
         if fx:
             with open(rng.choice(fx), encoding="utf-8", errors="replace") as f:
@@ -185,6 +203,21 @@ def gen_inputs(rng: Rng) -> tuple[list[dict], list[dict]]:
             t2 = rng.choice(corpus("ansi"))
         fillers.append({"text": t2, "dialect": d2, "templater": "raw"})
     return inputs, fillers
+
+
+_ALL_FIXTURES: list = []
+
+
+def gen_sweep(rng: Rng, n: int) -> list[dict]:
+    if not _ALL_FIXTURES:
+        for d in DIALECTS:
+            _ALL_FIXTURES.extend((d, p_) for p_ in fixtures(d))
+    out = []
+    for _ in range(n if _ALL_FIXTURES else 0):
+        d, p_ = rng.choice(_ALL_FIXTURES)
+        with open(p_, encoding="utf-8", errors="replace") as f:
+            out.append({"text": f.read(), "dialect": d, "src": os.path.relpath(p_, FIX)})
+    return out
 
 
 BUGGIFY = [
@@ -240,12 +273,14 @@ def run_one(ctx: Any, seed: int, tier: str, replay: Optional[dict] = None) -> di
     rng = Rng(seed)
     if replay:
         inputs, fillers, history = replay["inputs"], replay["fillers"], replay["history"]
+        sweep = replay.get("sweep", [])
         hs_h, hs_f = replay["hashseeds"]
         node_seed = replay["node_seed"]
     else:
         inputs, fillers = gen_inputs(rng.fork("inputs"))
+        sweep = gen_sweep(rng.fork("sweep"), 4 if tier == "quick" else 6)
         history = gen_history(rng.fork("history"), inputs, fillers)
-        pool = ctx.hashseeds(3)
+        pool = ctx.hashseeds(6)
         hr = rng.fork("hashseed")
         hs_h = hr.choice(pool)
         hs_f = hr.choice([h for h in pool if h != hs_h])
@@ -264,21 +299,23 @@ def run_one(ctx: Any, seed: int, tier: str, replay: Optional[dict] = None) -> di
     samples: list = []
     evaluations = 0
     node = None
+    r1node = None
     try:
         # references
         R0: dict[int, dict] = {}
         R1: dict[int, dict] = {}
         for i, inp in enumerate(inputs):
+            # R0: alone in a fresh process, defaults. R1 (both optimisations fully off): all inputs of the
+            # run one after the other in ONE extra process (a fork is the expensive thing in this sandbox;
+            # should earlier unoptimised parses influence later ones, R0 != R1 reports that just the same)
             n0 = zf.node({"name": "r0_%d" % i, "root": root, "cwd": "proj", "seed": seed + i, "knobs": {}})
             try:
                 R0[i] = n0.call("parse", text=inp["text"], dialect=inp["dialect"], templater=inp["templater"])
             finally:
                 n0.close()
-            n1 = zh.node({"name": "r1_%d" % i, "root": root, "cwd": "proj", "seed": seed + 100 + i, "knobs": {}})
-            try:
-                R1[i] = n1.call("parse", text=inp["text"], dialect=inp["dialect"], templater=inp["templater"], buggify={"cache_off": 1, "prune_off": 1})
-            finally:
-                n1.close()
+            if r1node is None:
+                r1node = zh.node({"name": "r1", "root": root, "cwd": "proj", "seed": seed + 100, "knobs": {}})
+            R1[i] = r1node.call("parse", text=inp["text"], dialect=inp["dialect"], templater=inp["templater"], buggify={"cache_off": 1, "prune_off": 1})
             for k, v in R1[i].get("stats", {}).items():
                 probes["ref_alloff_" + k] += v
             tdig = sha(inp["text"])[:10]
@@ -297,6 +334,35 @@ def run_one(ctx: Any, seed: int, tier: str, replay: Optional[dict] = None) -> di
                 })
             if sum(R1[i].get("stats", {}).get(k, 0) for k in ("cache_hit_skipped", "options_unpruned")):
                 nontrivial.append("%s|%s|alloff|fresh" % (tdig, inp["dialect"]))
+        # sweep: unmutated fixtures drawn file-uniformly over ALL dialects, each parsed with defaults and
+        # with both optimisations off in the reference process (no fork per input): optimised == unoptimised
+        for j, sw in enumerate(sweep):
+            if r1node is None:
+                r1node = zh.node({"name": "r1", "root": root, "cwd": "proj", "seed": seed + 100, "knobs": {}})
+            a = r1node.call("parse", text=sw["text"], dialect=sw["dialect"], templater="raw")
+            b = r1node.call("parse", text=sw["text"], dialect=sw["dialect"], templater="raw", buggify={"cache_off": 1, "prune_off": 1})
+            if "timeout" in a or "timeout" in b:
+                probes["timeouts"] += 1
+                continue
+            evaluations += 1
+            probes["sweep_pairs"] += 1
+            for k, v in b.get("stats", {}).items():
+                probes["ref_alloff_" + k] += v
+            tdig = sha(sw["text"])[:10]
+            log.append(["sweep", j, sw["dialect"], tdig, a.get("digest"), b.get("digest")])
+            if sum(b.get("stats", {}).get(k, 0) for k in ("cache_hit_skipped", "options_unpruned")):
+                nontrivial.append("%s|%s|alloff|sweep" % (tdig, sw["dialect"]))
+            if a.get("digest") != b.get("digest") or a.get("exception") != b.get("exception"):
+                what = "exception %r vs %r" % (a.get("exception"), b.get("exception")) if a.get("exception") != b.get("exception") else first_diff(a.get("tree", ""), b.get("tree", ""))
+                violations.append({
+                    "oracle": "optimised-vs-unoptimised",
+                    "signature": "C06:optimisation-changes-result",
+                    "message": "sweep input #%d (%s, %s): default parse differs from the parse with cache and pruning off: %s\n text=%r" % (
+                        j, sw["dialect"], sw["src"], what, sw["text"][:300]),
+                })
+        if r1node is not None:
+            r1node.close()
+            r1node = None
         # history
         node = zh.node({"name": "h", "root": root, "cwd": "proj", "seed": node_seed, "knobs": {}})
         prefix: list = []
@@ -362,10 +428,14 @@ def run_one(ctx: Any, seed: int, tier: str, replay: Optional[dict] = None) -> di
             "hashseeds": [hs_h, hs_f],
         })
         for v in violations:
-            v["replay"] = {"inputs": inputs, "fillers": fillers, "history": history, "hashseeds": [hs_h, hs_f], "node_seed": node_seed, "tier": tier}
+            v["replay"] = {"inputs": inputs, "fillers": fillers, "history": history, "sweep": sweep, "hashseeds": [hs_h, hs_f], "node_seed": node_seed, "tier": tier}
     finally:
-        if node is not None:
-            node.close()
+        for nd in (node, r1node):
+            if nd is not None:
+                try:
+                    nd.close()
+                except Exception:
+                    pass
         cl.drop_root(root)
     uniq: dict = {}
     for v in violations:
